@@ -925,9 +925,43 @@ func (r *rewriter) rewriteAccess() {
 		}
 		return true
 	})
+	// An assignment whose right-hand side calls or receives: Go evaluates the calls on BOTH sides in lexical order, so
+	// the write event wrapped around the left-hand side would be emitted before the right-hand side runs - earlier than
+	// the write it stands for (a store after an unlock inside the callee would look ordered; a store after a receive
+	// would look unordered). Such statements are split: temporaries take the right-hand side, then the store follows.
+	hasCall := func(e ast.Expr) bool {
+		found := false
+		ast.Inspect(e, func(n ast.Node) bool {
+			switch u := n.(type) {
+			case *ast.CallExpr:
+				found = true
+			case *ast.UnaryExpr:
+				if u.Op == token.ARROW {
+					found = true
+				}
+			case *ast.FuncLit:
+				return false
+			}
+			return !found
+		})
+		return found
+	}
+	needSplit := map[*ast.AssignStmt]bool{}
 	ast.Inspect(r.file, func(n ast.Node) bool {
 		switch x := n.(type) {
 		case *ast.AssignStmt:
+			if x.Tok != token.DEFINE {
+				rc, lc := false, false
+				for _, e := range x.Rhs {
+					rc = rc || hasCall(e)
+				}
+				for _, e := range x.Lhs {
+					lc = lc || hasCall(e)
+				}
+				if rc && !lc {
+					needSplit[x] = true
+				}
+			}
 			for _, l := range x.Lhs {
 				if x.Tok == token.DEFINE {
 					noTouch[strip(l)] = true
@@ -989,8 +1023,42 @@ func (r *rewriter) rewriteAccess() {
 	wrap := func(fn string, e ast.Expr) ast.Expr {
 		return &ast.ParenExpr{X: &ast.StarExpr{X: r.call(fn, &ast.UnaryExpr{Op: token.AND, X: e})}}
 	}
+	writesTracked := func(e ast.Expr) bool {
+		found := false
+		ast.Inspect(e, func(n ast.Node) bool {
+			if ce, ok := n.(*ast.CallExpr); ok && (isMcrtCall(ce, "W") || isMcrtCall(ce, "WMap") || isMcrtCall(ce, "WSlice")) {
+				found = true
+			}
+			return !found
+		})
+		return found
+	}
 	post := func(c *astutil.Cursor) bool {
 		switch n := c.Node().(type) {
+		case *ast.AssignStmt:
+			if !needSplit[n] || c.Index() < 0 {
+				return true
+			}
+			tracked := false
+			for _, l := range n.Lhs {
+				tracked = tracked || writesTracked(l)
+			}
+			if !tracked {
+				return true
+			}
+			tmps := make([]ast.Expr, len(n.Lhs))
+			uses := make([]ast.Expr, len(n.Lhs))
+			if n.Tok != token.ASSIGN {
+				// x op= f(): one operand on each side
+				tmps, uses = tmps[:1], uses[:1]
+			}
+			for i := range tmps {
+				id := r.newTmp("rhs")
+				tmps[i], uses[i] = id, ast.NewIdent(id.Name)
+			}
+			c.InsertBefore(&ast.AssignStmt{Lhs: tmps, Tok: token.DEFINE, Rhs: n.Rhs})
+			n.Rhs = uses
+			r.stats["access-store-after-rhs"]++
 		case *ast.IndexExpr:
 			if idxMap[n] {
 				r.stats["access-map"]++
